@@ -424,6 +424,56 @@ def job_alias(job, seed):
     return {'obligations': obs, 'candidates': cands, 'paths': 1}
 
 
+def job_f32range(job, seed):
+    """Single-precision wavelengths: every value the drop computation stores in float32 (the casts and the in-place products
+    lambda^2, lambda^2 * constant, ... * L2^2) is zero or a normal float32 number for wavelengths 0.1..100 angstrom, flight
+    paths 0.1..1000 m and every unit choice of the grid - an intermediate that underflows makes the drop vanish silently."""
+    entry = job
+    import numpy as np
+    from symex import core as C
+    from symex import loader
+    from symsc import variable as V
+    from .symutil import f32_range_obligations, fresh_run, sym_unit
+
+    sc = loader.install_shim()
+    bl = loader.load('conversion.beamline')
+    fresh_run()
+    obs, cands = [], []
+    tag = f'f32range[{entry}]'
+    case = {'kind': 'f32range', 'entry': entry}
+    uL, uW = sym_unit('L', 'm'), sym_unit('W', 'm')
+    L2 = C.sym_var('L2', sign='+')
+
+    def vecv(c, unit):
+        a = np.empty((3,), dtype=object)
+        for i in range(3):
+            a[i] = C.R.lift(c[i])
+        return V.Variable(_arr=a, dims=(), unit=unit, dtype=V.DType.vector3)
+
+    b1 = vecv([0, 0, 10], uL)
+    b2 = vecv([L2 * Fraction(3, 5), 0, L2 * Fraction(4, 5)], uL)
+    g = vecv([0, -Fraction(980665, 100000), 0], V.parse_unit('m/s**2'))
+    lam = V.Variable(dims=(), values=C.sym_var('lam', sign='+'), unit=uW, dtype='float32')
+    V.F32_LOG.clear()
+    V.F32_OPS_LOG.clear()
+    C.CTX.fork_timeout_ms = 3000
+    real_tt = bl.two_theta
+    bl.two_theta = lambda *, incident_beam, scattered_beam: sc.scalar(C.sym_var('ANGLE'), unit='rad', dtype='float32')
+    try:
+        paths = C.explore(lambda: getattr(bl, entry)(incident_beam=b1, scattered_beam=b2, wavelength=lam, gravity=g), max_paths=8)
+    finally:
+        bl.two_theta = real_tt
+    terms = list(V.F32_LOG) + list(V.F32_OPS_LOG)
+    o2, bad, notes = f32_range_obligations(tag, terms, {'sigma_L': 'length', 'sigma_W': 'wavelength'},
+                                           {'lam': (Fraction(1, 10**11), Fraction(1, 10**8), 'sigma_W'), 'L2': (Fraction(1, 10), Fraction(1000), 'sigma_L')})
+    obs += [ob_dict(o) for o in o2]
+    ob = C.prove(f'{tag}: explored ({len(paths)} paths, {len(terms)} single-precision values, {len(o2)} range-checked)', C.B.const(len(o2) >= 2 and any(p.exc is None and not p.inconclusive for p in paths)))
+    obs.append(ob_dict(ob))
+    for term, units in bad:
+        cands.append(('C04:float32-range', {**case, 'units': units}, f'{term} is subnormal / zero / out of range in float32 for units {units}'))
+    return {'obligations': obs, 'candidates': cands, 'paths': len(paths), 'notes': notes}
+
+
 def job_limits(job, seed):
     """(vi) limits and monotonic sign from the construction (abstract lemma over p=b2.b1^, q=b2.ey, n=|b2|^2, delta)."""
     from symex import core as C
@@ -460,6 +510,7 @@ def run(chk):
     run_jobs(chk, job_refl_guard, [0])
     run_jobs(chk, job_alias, [(e, g_, u) for e in ('scattering_angles_with_gravity', 'scattering_angle_in_yz_plane') for g_ in ('perpendicular', 'tilted') for u in ('m', 'cm')
                               if not (e == 'scattering_angle_in_yz_plane' and g_ == 'tilted') and not (g_ == 'tilted' and u == 'cm')])
+    run_jobs(chk, job_f32range, ['scattering_angles_with_gravity', 'scattering_angle_in_yz_plane'])
     run_jobs(chk, job_limits, [0])
     chk.bounds = {'shapes': 'scalar operands (kernels element-wise)', 'orientation': 'b1, b2, g arbitrary real vectors (generic path); '
                   'b1 = g x w for the perpendicular case (all b1 with g.b1 = 0)', 'wavelength': '>= 0, float32/float64, symbolic unit scale'}
@@ -506,6 +557,30 @@ def replay_real(case):
         x = mp.sqrt(sum((a + b) ** 2 for a, b in zip(u, v, strict=True)))
         return 2 * mp.atan2(y, x), mp.atan2(dot(b2p, ey), dot(b2p, ex)), mp.atan2(abs(dot(b2p, ey)), dot(b2p, ez))
 
+    if case.get('kind') == 'f32range':
+        # single-precision wavelengths over the unit grid against the same call in double precision
+        f = getattr(rb, case['entry'])
+        import itertools as it
+        for lu, wu in it.product(['m', 'mm', 'km', 'angstrom'], ['angstrom', 'nm', 'm']):
+            b1 = sc.vector([0.0, 0.0, 10.0], unit='m').to(unit=lu)
+            b2 = sc.vectors(dims=['det'], values=[[0.3, 0.4, 5.0], [-1.0, 0.2, 3.0]], unit='m').to(unit=lu)
+            g = sc.vector([0.0, -9.80665, 0.0], unit='m/s^2')
+            lam64 = sc.array(dims=['wavelength'], values=[4.0, 12.0, 30.0], unit='angstrom').to(unit=wu)
+            try:
+                r32 = f(incident_beam=b1, scattered_beam=b2, wavelength=lam64.astype('float32'), gravity=g)
+                r64 = f(incident_beam=b1, scattered_beam=b2, wavelength=lam64, gravity=g)
+            except Exception as e:  # noqa: BLE001
+                bad.append(f'beams in {lu}, wavelength in {wu}: raises {type(e).__name__}')
+                continue
+            for key in (['two_theta', 'phi'] if isinstance(r32, dict) else [None]):
+                a32 = (r32[key] if key else r32).values.astype('float64')
+                a64 = (r64[key] if key else r64).values
+                if not np.allclose(a32, a64, rtol=0, atol=3e-6):
+                    bad.append(f'beams in {lu}, wavelength in {wu} (float32): {key or "angle"} {a32.ravel()[:3].tolist()} vs {a64.ravel()[:3].tolist()} in double precision')
+                    break
+            if len(bad) > 2:
+                break
+        return {'reproduced': bool(bad), 'detail': '; '.join(bad[:2])[:600]}
     if case.get('kind') == 'alias':
         f = getattr(rb, case['entry'])
         bu = case['beam_unit']
